@@ -108,8 +108,11 @@ PROPS = {
     "C15": sprop(
         "Symbolic execution of the real HSV/HSL/HWB <-> RGB code (SIMD and scalar path): z3 decides for every hue in [-720,720] and all "
         "saturation/value/lightness/whiteness/blackness in bounds that RGB lies in [0,1], and for every in-gamut RGB that the results are "
-        "within bounds and convert back.",
-        "Trusted: z3. The Okhsl/Okhsv/Okhwb/HSLuv half of the property (degree >= 9 rational cusp search) is outside the claim, see DESIGN.md."),
+        "within bounds and convert back. Okhsl -> RGB and HSLuv -> RGB: on 13 hues (regular ones and 0.3 degrees either side of the three "
+        "sRGB primaries, where the cusp polynomial changes sector) x 6 lightnesses the real cusp search / gamut boundary runs on constants "
+        "and z3 decides for EVERY saturation that linear RGB lies in [-4e-4, 1 + 2e-3].",
+        "Trusted: z3. Okhsv/Okhwb -> RGB (Open obligations: no answer in 900 s) and RGB -> Okhsl/Okhsv/Okhwb/HSLuv (symbolic hue through "
+        "the degree >= 9 cusp search) are outside the claim, see DESIGN.md 9.4."),
     "C02": sprop(
         "Differential symbolic checking of every directly implemented conversion against an independent transcription of its published "
         "definition (CIE 15 with exact rational epsilon/kappa, the standards' transfer curves, Smith's hexcone HSV/HSL/HWB, Ottosson's "
@@ -138,13 +141,15 @@ PROPS = {
         "Symbolic execution of the real colour-difference code (Delta E, improved Delta E, HyAB, Euclidean, Lch forms, WCAG contrast, "
         "CIEDE2000): z3 decides for ALL pairs of colours in the stated boxes equality with the closed forms / the Sharma reference, "
         "symmetry, non-negativity, zero for identical colours, contrast range and threshold predicates.",
-        "Trusted: z3; the CIEDE2000 transcription (symx/src/reference/ciede2000.rs). The full CIEDE2000 differential and symmetry are "
-        "thorough-tier and claimed only when discharged (DESIGN.md section 9)."),
+        "Trusted: z3; the CIEDE2000 transcription (symx/src/reference/ciede2000.rs). CIEDE2000 = Sharma reference and symmetry are decided "
+        "on 36 hue/chroma configurations (hue pairs straddling 0/360 in both orders, pairs more than 180 degrees apart) with one lightness "
+        "symbolic; over all six variables they are Open obligations (not decided by z3, DESIGN.md 9.4)."),
     "C16": sprop(
         "Symbolic execution of the real CAM16 code with concrete viewing conditions (the real prepare_parameters runs in f64) and a "
         "symbolic colour: the CAM16-UCS formulas and their inverses (exp/ln axioms), Jab <-> Jmh (trigonometric axioms), each of the six "
-        "partial types = the full model's attributes (syntactic identity), black <-> black, adopted white has J = 100; the XYZ -> CAM16 "
-        "-> XYZ round trips through the non-linear compression are thorough-tier and claimed only when discharged.",
+        "partial types = the full model's attributes (syntactic identity), black <-> black, adopted white has J = 100. The XYZ -> CAM16 "
+        "-> XYZ round trips through the non-linear compression are Open obligations (z3 does not decide them): the inverse model is NOT "
+        "covered, two seeded changes to it were missed (DESIGN.md 9.4, 9.7).",
         "Trusted: z3. Viewing conditions: D65 with L_A in {4, 40, 318}, D50 with L_A = 64, Y_b = 20, average surround; others are outside "
         "the claim. The forward model is not compared against an independent transcription of Li et al. (shared pow symbols would make "
         "that comparison syntactic only)."),
